@@ -13,6 +13,7 @@ mod c05;
 mod rulegen;
 mod probe;
 mod c04g;
+mod c19;
 
 use std::path::PathBuf;
 
@@ -49,6 +50,7 @@ fn main() {
     "c03" => c02::run_c03(&o),
     "c04x" => c02::run_c04x(&o),
     "c04g" => c04g::run(&o),
+    "c19" => c19::run(&o),
     "c05" => c05::run_stream(&o, "c05"),
     "c04" => c05::run_stream(&o, "c04"),
     s => { eprintln!("unknown stream {s}"); std::process::exit(2); }
